@@ -768,6 +768,10 @@ def bounded(tier, seed):
     for world, group in ((2, -1), (4, 2), (3, -1)) if tier != "quick" else ((2, -1), (4, 2)):
         try:
             bad = native_state_placement(world, group)
+        except TimeoutError:
+            # the simulated ranks did not finish even after repeated attempts: says nothing about WHERE state is placed (process-group
+            # creation hanging is known finding F6 of C06) — this sample is inconclusive and not counted
+            continue
         except BaseException as e:  # noqa
             bad = f"{type(e).__name__}: {str(e)[:300]}"
         evals += 1
